@@ -285,7 +285,7 @@ def export_roundtrip(ctx, tdir):
     h5 = tdir / "exp.h5"
     new_container(h5)
     saved = []
-    ratings = [3, 0, 7, 10]
+    ratings = [3, 0.25, 7.5, 10]             # (user ratings are floats: fractional values are legitimate)
     with warnings.catch_warnings():
         warnings.simplefilter("ignore")
         for n, (fi, enum) in enumerate(pool.keys()[:4]):
@@ -297,7 +297,7 @@ def export_roundtrip(ctx, tdir):
         X, y, fn = IndentationRater.load_training_set(tdir / "ts_export", which_type="all", remove_nan=False,
                                                       replace_inf=False, impute_zero_rated_nan=False, ret_names=True)
         saved.sort(key=lambda t: t[0])           # container order = sorted group names
-        ok = list(y) == [float(r) for _, _, r in saved]
+        ok = list(y) == [float("%.2e" % r) for _, _, r in saved]
         detail = {"responses": list(y), "expected": [r for _, _, r in saved]}
         if ok:
             for r, (_, idnt, _) in enumerate(saved):
